@@ -13,6 +13,7 @@ package conntrack
 
 import (
 	"fmt"
+	"os"
 	"path/filepath"
 	"sort"
 	"strings"
@@ -247,6 +248,9 @@ func TestVerif_C14(t *testing.T) {
 		if err != nil {
 			c.ToolError(err.Error())
 			return
+		}
+		if strings.Contains(dir, "/bpf-scratch/") {
+			defer os.RemoveAll(dir)
 		}
 		if err := ebpf.SelfTestELF(filepath.Join(dir, "selftest.o")); err != nil {
 			c.ToolError(err.Error())
